@@ -119,10 +119,13 @@ NpFails(r, net, par, opts, x, u, d) ==
                   ELSE {}
            \* C11 / C12: next-state objects fed back after being disturbed in place vs fresh arrays holding the same values
            ofb == o.feedback
+           \* (pair "fed-back"); omitted variables created by the engine of THIS step whatever engine stepped before (pair "fill")
            fbk == IF ~ofb.has THEN {}
-                  ELSE {s \in StateSlots(net) : ~(RIsNaN(ObsY(net, ofb.ya, s)) /\ RIsNaN(ObsY(net, ofb.yb, s))) /\ ObsY(net, ofb.ya, s) # ObsY(net, ofb.yb, s)}
+                  ELSE UNION {{<<ofb.pairs[k].name, s>> : s \in {s \in StateSlots(net) :
+                                  ~(RIsNaN(ObsY(net, ofb.pairs[k].ya, s)) /\ RIsNaN(ObsY(net, ofb.pairs[k].yb, s)))
+                                  /\ ObsY(net, ofb.pairs[k].ya, s) # ObsY(net, ofb.pairs[k].yb, s)}} : k \in DOMAIN ofb.pairs}
        IN {<<"np.y", s>> : s \in mism}
-          \cup {<<"np.feedback", s>> : s \in fbk}
+          \cup {<<"np.feedback", s[1], s[2]>> : s \in fbk}
           \cup (IF ~ofb.has /\ ofb.err # "" THEN {<<"np.feedback_ok", ofb.err>>} ELSE {})
           \cup {<<"np.flow", s>> : s \in flw}
           \cup (IF ~ofl.has /\ ofl.err # "" THEN {<<"np.flow_ok", ofl.err>>} ELSE {})
